@@ -20,6 +20,19 @@ pub struct Observer<Endpoint: Display> {
     message_id: Option<u16>,
 }
 
+#[cfg(coap_lite_verif)]
+impl<Endpoint: Display> Observer<Endpoint> {
+    /// Verification hook: the count of unacknowledged confirmable updates.
+    pub fn verif_unacknowledged(&self) -> u8 {
+        self.unacknowledged_messages
+    }
+
+    /// Verification hook: the message id awaiting acknowledgement, if any.
+    pub fn verif_pending_message_id(&self) -> Option<u16> {
+        self.message_id
+    }
+}
+
 /// An observed resource.
 pub struct Resource<Endpoint: Display> {
     pub observers: Vec<Observer<Endpoint>>,
